@@ -57,7 +57,8 @@ def coq_make(targets, timeout=1500):
     with open(lock, 'w') as lf:
         fcntl.flock(lf, fcntl.LOCK_EX)          # one make at a time in coq/ (checks may run concurrently)
         coq_project()
-        rc, out = sh('make -j%d %s' % (NCPU, ' '.join(targets)), cwd=COQ, timeout=timeout)
+        # 12 GB of address space per coqc at most: a proof that blows up must fail, not take the machine down
+        rc, out = sh('ulimit -v 12000000; make -j%d %s' % (NCPU, ' '.join(targets)), cwd=COQ, timeout=timeout)
     return rc == 0, out
 
 
